@@ -554,6 +554,91 @@ R.contract(
     },
 )
 
+
+# ------------------------------------------------------------------------------------------------- values that violate uniqueItems / pattern / enum "in the way the description says"
+def _gen_from_schema(it, obj, a, k):
+    # generate_from_schema({... "type": "array", "minItems": 1, "maxItems": 1}): one array with exactly one item valid for the schema (E1)
+    it.ghost["asked_schema"] = it.B._deepcopy(a[0], {})
+    item = fresh_opaque(it, "Value")
+    it.ghost["single_item"] = item
+    return [item]
+
+
+def _gen_from(it, obj, a, k):
+    """ctx.generate_from(strategy): exercise the strategy's filters on an arbitrary candidate and hand out a value that passed them (E2)."""
+    strat = a[0]
+    it.ghost["strategy"] = strat
+    value = fresh_opaque(it, "Candidate")
+    it.ghost["drawn"] = value
+    return value
+
+
+R.nominal_methods["spec:NegCtxObj"] = {"generate_from_schema": _gen_from_schema, "generate_from": _gen_from, "is_valid_for_location": lambda it, obj, a, k: ("valid-for-location", a[0])}
+NCtx = lambda: Obj("spec:NegCtxObj", current_path=Const("/"), location=Str)
+R.contract(
+    COV + "_negative_unique_items",
+    prop="C03",
+    args={"ctx": NCtx(), "schema": DictOf(optional={"items": Opq("ItemsSchema"), "minItems": Int, "uniqueItems": Const(True)})},
+    ghost={"asked_schema": None, "single_item": None},
+    raises=[],
+    ensures={
+        # "Non-unique items": the value really has a repeated item - the same (valid) item twice
+        "the_array_repeats_one_item": "length(result) == 1 and length(result[0].value) == 2 and result[0].value[0] is ghost('single_item') and result[0].value[1] is ghost('single_item') and "
+                                      "result[0].generation_mode.name == 'NEGATIVE' and result[0].description == 'Non-unique items'",
+        "the_item_is_generated_for_the_arrays_own_schema": "ghost('asked_schema')['type'] == 'array' and ghost('asked_schema')['minItems'] == 1 and ghost('asked_schema')['maxItems'] == 1 and "
+                                                           "all(k in ghost('asked_schema') and (ghost('asked_schema')[k] == schema[k] or k == 'minItems') for k in schema)",
+    },
+)
+
+
+class _TextStrategy:
+    """hypothesis.strategies.text(...): records its bounds and the filters chained on it."""
+
+
+def _text(it, a, k):
+    from pyvc.values import VObj
+
+    return VObj(it.resolve_class("spec:TextStrategy"), {"min_size": k.get("min_size", 0), "max_size": k.get("max_size"), "filters": []})
+
+
+def _chain_filter(it, obj, a, k):
+    from pyvc.values import VObj
+
+    return VObj(obj.cls, {**obj.fields, "filters": obj.fields["filters"] + [a[0]]})
+
+
+R.extern["hypothesis.strategies.text"] = _text
+R.nominal_methods["spec:TextStrategy"] = {"filter": _chain_filter}
+R.extern["re.compile"] = lambda it, a, k: __import__("pyvc.values", fromlist=["VObj"]).VObj(it.resolve_class("spec:CompiledPattern"), {"pattern": a[0]})
+R.extern["functools.partial"] = lambda it, a, k: ("partial", a[0], tuple(a[1:]), dict(k))
+R.exception_classes["error"] = "Exception"
+R.contract(
+    COV + "_negative_pattern",
+    prop="C03",
+    args={"ctx": NCtx(), "pattern": Str, "min_length": OneOf(NoneT, IntRange(0, None)), "max_length": OneOf(NoneT, IntRange(0, None))},
+    ghost={"strategy": None, "drawn": None},
+    raises=[],
+    ensures={
+        # "Value not matching the '<pattern>' pattern": the value comes from strings of the declared lengths that were FILTERED by "does not match this very pattern" (and can be sent in the location)
+        "drawn_from_strings_filtered_by_not_matching_this_pattern": "length(result) == 1 and result[0].value is ghost('drawn') and length(ghost('strategy').filters) == 2 and "
+            "ghost('strategy').filters[0][0] == 'partial' and fname(ghost('strategy').filters[0][1]) == '_not_matching_pattern' and ghost('strategy').filters[0][3]['pattern'].pattern == pattern",
+        "the_declared_lengths_are_respected_so_that_only_the_pattern_is_violated": "same_n(ghost('strategy').min_size, min_length if min_length is not None else 0) and same_n(ghost('strategy').max_size, max_length)",
+        "labelled_negative": "result[0].generation_mode.name == 'NEGATIVE'",
+    },
+    replayable=False,
+)
+R.spec_funcs["fname"] = lambda it, f: getattr(getattr(f, "node", None), "name", None)
+R.spec_funcs["same_n"] = lambda it, a, b: (a is None and b is None) if (a is None or b is None) else __import__("pyvc.ops", fromlist=["eq"]).eq(a, b)
+R.contract(
+    COV + "_not_matching_pattern",
+    prop="C03",
+    args={"value": Str, "pattern": Obj("spec:SearchablePattern")},
+    ghost={"searched": None, "found": None},
+    raises=[],
+    ensures={"true_iff_the_pattern_is_found_nowhere_in_the_value": "ghost('searched') == value and iff(result, ghost('found') is None)"},
+)
+R.nominal_methods["spec:SearchablePattern"] = {"search": lambda it, obj, a, k: (it.ghost.__setitem__("searched", a[0]) or it.ghost.__setitem__("found", OneOf(NoneT, Opq("Match")).make(it, it.path.fresh("match"))) or it.ghost["found"])}
+
 LEVEL_TEXT = ("Deductive: the numeric / length / item-count boundary generators are verified against 'conforms to the declared schema' for ALL integer bounds "
               "(multipleOf clauses for a finite set of divisors, labelled bounded); the case-level label rule is a postcondition on every case yielded by _iter_coverage_cases.")
 LEVEL_NOTE = "Trusted: E1 (values generated from a schema are valid for it), floats as reals, pyvc semantics (E9)."
